@@ -578,7 +578,10 @@ def _scale_doublemad(
         np.nanmean(data_right, axis=axis, keepdims=True) / norm_aad,
         mad_right,
     )
-    return np.where(data < loc, mad_left, mad_right)
+    # Elements equal to the median belong to both halves: give them the mean of the two
+    # scales so that the estimate does not depend on the sign convention of the data.
+    mad_both = 0.5 * (mad_left + mad_right)
+    return np.where(data < loc, mad_left, np.where(data > loc, mad_right, mad_both))
 
 
 def _scale_diffcov(
